@@ -11,7 +11,7 @@ func init() { register("C10", "exploration", checkC10) }
 func checkC10(run *mon.Run, rng *mon.Rand, thorough bool) {
 	run.Rule = "seeded random histories interleaving MsgCreateBridge and MsgInitiateTokenDeposit over bridge ids 1..7 of which only some exist yet; per-bridge sequence model, event/request/balance comparison and token-pair derivation checked after every step. Distinct non-trivial = (bridge id, exists, zero amount, has payload) classes of accepted deposits"
 	run.Assumptions = []string{"events are read by the exported type/attribute constants, as an executor would", "L2 denom derivation compared with the independent ref implementation"}
-	for _, c := range []string{"C10.sequence_gap_free", "C10.exactly_one_event", "C10.event_faithful", "C10.next_sequence_query", "C10.token_pairs_fixed", "C10.real_bridges_only", "C10.fresh_bridge_clean", "C10.nothing_prerecorded"} {
+	for _, c := range []string{"C10.sequence_gap_free", "C10.exactly_one_event", "C10.event_faithful", "C10.next_sequence_query", "C10.token_pairs_fixed", "C10.real_bridges_only", "C10.fresh_bridge_clean", "C10.nothing_prerecorded", "C10.announced_amount_was_moved"} {
 		run.Declare(c, 20)
 	}
 	hist := pick(thorough, 24, 300)
